@@ -11,6 +11,7 @@ mod api;
 mod compile;
 mod exec;
 mod record;
+mod text;
 mod util;
 mod verdict;
 
@@ -37,6 +38,8 @@ fn main() {
         "record-interp" => cmd_record_interp(&args[2..]),
         "record-api" => cmd_record_api(&args[2..]),
         "compiles" => cmd_compiles(&args[2..]),
+        "texts" => cmd_texts(&args[2..]),
+        "fuzz-asm" => cmd_fuzz_asm(&args[2..]),
         other => {
             eprintln!("unknown command {other}");
             2
@@ -471,4 +474,76 @@ fn cmd_compiles(args: &[String]) -> i32 {
         return 0;
     }
     2
+}
+
+/// rv texts --cases F --report R [--only asm|disasm|roundtrip]: replay asm / disasm records.
+fn cmd_texts(args: &[String]) -> i32 {
+    let cases_path = arg(args, "--cases").expect("--cases");
+    let report_path = arg(args, "--report").expect("--report");
+    let recs = read_ndjson(cases_path);
+    let results = run_isolated(&recs, 10000, text::run_text);
+    let mut pass = 0u64;
+    let mut nfail = 0u64;
+    let mut fails = Vec::new();
+    let mut samples = Vec::new();
+    for (rec, r) in recs.iter().zip(results.iter()) {
+        let (bad, obs) = match r {
+            ChildResult::Done(v) => (text::judge_text(rec, v), v.clone()),
+            ChildResult::Signal(s) => (vec![format!("process killed by signal {s}")], json!({"signal": s})),
+            ChildResult::Timeout => (vec!["no answer within 10 s (not total / unbounded time)".to_string()], json!({"timeout": true})),
+            ChildResult::Exit(c) => (vec![format!("process exited {c}")], json!({"exit": c})),
+        };
+        if bad.is_empty() {
+            pass += 1;
+            if samples.len() < 3 {
+                samples.push(json!({"record": rec, "observed": obs}));
+            }
+        } else {
+            nfail += 1;
+            if fails.len() < 300 {
+                fails.push(json!({"record": rec, "observed": obs, "reason": bad.join(" | ")}));
+            }
+        }
+    }
+    let report = json!({"records": recs.len(), "pass": pass, "fail": nfail, "failures": fails, "samples": samples});
+    std::fs::write(report_path, serde_json::to_string(&report).unwrap()).unwrap();
+    println!("texts: {} records, {} pass, {} fail", recs.len(), pass, nfail);
+    0
+}
+
+/// rv fuzz-asm --seed S --n N --report R
+fn cmd_fuzz_asm(args: &[String]) -> i32 {
+    let seed: u64 = arg(args, "--seed").map(|s| s.parse().unwrap()).unwrap_or(1);
+    let n: usize = arg(args, "--n").map(|s| s.parse().unwrap()).unwrap_or(1000);
+    let report_path = arg(args, "--report").expect("--report");
+    let mut r = Rng::new(seed ^ 0xc14);
+    let inputs: Vec<Value> = (0..n).map(|_| json!(text::gen_fuzz_input(&mut r))).collect();
+    let results = run_isolated(&inputs, 5000, text::run_fuzz);
+    let mut ok = 0u64;
+    let mut err = 0u64;
+    let mut fails = Vec::new();
+    let mut distinct = std::collections::BTreeSet::new();
+    for (inp, res) in inputs.iter().zip(results.iter()) {
+        distinct.insert(inp.as_str().unwrap().to_string());
+        let bad = match res {
+            ChildResult::Done(v) => match v["k"].as_str().unwrap() {
+                "ok" => { ok += 1; None }
+                "err" => { err += 1; None }
+                _ => Some(format!("assemble panicked: {}", v["msg"])),
+            },
+            ChildResult::Signal(s) => Some(format!("process killed by signal {s}")),
+            ChildResult::Timeout => Some("no answer within 5 s".to_string()),
+            ChildResult::Exit(c) => Some(format!("process exited {c}")),
+        };
+        if let Some(b) = bad {
+            if fails.len() < 100 {
+                fails.push(json!({"input": inp, "reason": b}));
+            }
+        }
+    }
+    let samples: Vec<&Value> = inputs.iter().take(3).collect();
+    let report = json!({"inputs": n, "distinct": distinct.len(), "ok": ok, "err": err, "fail": fails.len(), "failures": fails, "samples": samples});
+    std::fs::write(report_path, serde_json::to_string(&report).unwrap()).unwrap();
+    println!("fuzz-asm: {n} inputs, {ok} ok, {err} err, {} failing", report["fail"]);
+    0
 }
